@@ -5,8 +5,8 @@ from .common import filler, exc_name
 ID = 'C12'
 TITLE = 'Block signature sets are accepted only with a genuine validator supermajority'
 EXPLORER = 'E (all validator weight vectors x all signature sequences over a per-validator fault alphabet)'
-RULE = ('validator sets of size 0..N with every weight vector over {1,2,3} (plus vectors containing 2^63 and 2^64-1); signature lists = ALL sequences '
-        'up to length 3 over the alphabet {valid(i), valid-over-another-block(i), bit-flipped(i), truncated(i), signed-by-i-under-id-of-j, valid '
+RULE = ('validator sets of size 0..N with every weight vector over {1,2,3} (plus vectors containing 2^63 and 2^64-1, and (m+1,m,m-1), (m,m,m), (2m,m), (2m+-1,m) for m around 2^53..2^63 so that subsets sign exactly 2m-1, 2m and 2m+1 of 3m); signature lists = ALL sequences '
+        'up to length 3 over the alphabet {valid(i), valid(i) with the id in upper-case hex, valid-over-another-block(i), bit-flipped(i), truncated(i), signed-by-i-under-id-of-j, valid '
         'signature by a non-member} and ALL sequences up to length N+1 of valid signatures (so every multiset and order incl. duplicates); two block '
         'ids. Oracle: accept <=> non-empty set, every entry a valid Ed25519 signature over magic+root_hash+file_hash by a member, no member twice, '
         '3*signed weight > 2*total weight. Real Ed25519 keys (PyNaCl). non-trivial = at least one signature; states = distinct (weights, sequence); '
@@ -30,6 +30,7 @@ def REQUIRED_COVER(tier):
 
 
 MAGIC = bytes.fromhex('706e0bc5')
+BIG_M = [2 ** 53 + 1, 2 ** 58 + 1, 2 ** 58 + 63, 2 ** 60 + 5, 2 ** 62 + 21, 2 ** 63 - 3]
 
 
 class World:
@@ -50,6 +51,8 @@ class World:
         foreign = len(self.keys) - 1
         if kind == 'valid':
             return {'node_id_short': self.ids[i], 'signature': self.sig[(i, blk)]}, i, True
+        if kind == 'validU':     # the same validator, its id spelled in upper-case hex
+            return {'node_id_short': self.ids[i].upper(), 'signature': self.sig[(i, blk)]}, i, True
         if kind == 'other':
             return {'node_id_short': self.ids[i], 'signature': self.sig[(i, 1 - blk)]}, i, False
         if kind == 'flip':
@@ -137,15 +140,21 @@ def weight_vectors(n, tier):
         big += [tuple([2 ** 63] * n), tuple([2 ** 64 - 1] + [1] * (n - 1)), tuple([1] * (n - 1) + [2 ** 63])]
     if n == 3:
         big += [(2 ** 63, 2 ** 63, 2 ** 63 + 1), (1, 1, 4), (2, 2, 2), (5, 1, 3)]
+    # the 2/3 boundary at magnitudes where floating point loses integers: subsets sign 2m-1, 2m, 2m+1 of 3m
+    for m in BIG_M:
+        if n == 3:
+            big += [(m + 1, m, m - 1), (m, m, m)]
+        if n == 2:
+            big += [(2 * m, m), (2 * m + 1, m), (2 * m - 1, m)]
     return base + big
 
 
 def sequences(n):
-    syms_full = [(k, i) for i in range(n) for k in ('valid', 'other', 'flip', 'trunc', 'swap')] + [('foreign', 0)]
+    syms_full = [(k, i) for i in range(n) for k in ('valid', 'validU', 'other', 'flip', 'trunc', 'swap')] + [('foreign', 0)]
     seen = set()
     for L in range(0, 4):
         for seq in itertools.product(syms_full, repeat=L):
-            if L == 3 and sum(1 for s in seq if s[0] != 'valid') > 1 and n >= 3:
+            if L == 3 and sum(1 for s in seq if s[0] not in ('valid', 'validU')) > 1 and n >= 3:
                 continue           # n=3, length 3: at most one faulty entry (deviation bound 1 around valid sequences)
             seen.add(seq)
             yield seq
